@@ -26,6 +26,8 @@ import (
 	"strings"
 	"time"
 
+	"github.com/itchio/wharf/pwr/rediff"
+
 	"verif/harness/lib"
 )
 
@@ -46,6 +48,7 @@ type c07Job struct {
 
 type c07Result struct {
 	Class, Msg string
+	Mappings   []rdMapping // the analysis of the run that produced the optimized patch
 }
 
 // runC07Child: analyse + optimize as told by the job file (given through -replay)
@@ -62,23 +65,25 @@ func runC07Child(c *Ctx) error {
 	if err != nil {
 		return err
 	}
+	var ms []rdMapping
 	cls, msg := lib.Guard(func() error {
-		rc, _, err := rdAnalyze(patch, job.Params)
+		rc, m, err := rdAnalyze(patch, job.Params)
 		if err != nil {
 			return err
 		}
+		ms = m
 		out, err := rdOptimizeWith(rc, job.OldDir, job.NewDir)
 		if err != nil {
 			return err
 		}
 		return os.WriteFile(job.Out, out, 0o644)
 	})
-	rb, _ := json.Marshal(c07Result{cls, msg})
+	rb, _ := json.Marshal(c07Result{cls, msg, ms})
 	return os.WriteFile(job.Result, rb, 0o644)
 }
 
 // c07OptimizeChild runs the optimizer in a child process
-func (c *Ctx) c07OptimizeChild(dir string, patch []byte, oldDir, newDir string, o lib.OptParams, deadline time.Duration) (cls, msg string, out []byte) {
+func (c *Ctx) c07OptimizeChild(dir string, patch []byte, oldDir, newDir string, o lib.OptParams, deadline time.Duration) (cls, msg string, out []byte, ms []rdMapping) {
 	job := c07Job{Patch: filepath.Join(dir, "job.patch"), OldDir: oldDir, NewDir: newDir, Out: filepath.Join(dir, "job.out"),
 		Result: filepath.Join(dir, "job.result"), Params: o}
 	jobFile := filepath.Join(dir, "job.json")
@@ -86,22 +91,22 @@ func (c *Ctx) c07OptimizeChild(dir string, patch []byte, oldDir, newDir string, 
 		os.Remove(f)
 	}
 	if err := os.WriteFile(job.Patch, patch, 0o644); err != nil {
-		return "harness", err.Error(), nil
+		return "harness", err.Error(), nil, nil
 	}
 	jb, _ := json.Marshal(job)
 	if err := os.WriteFile(jobFile, jb, 0o644); err != nil {
-		return "harness", err.Error(), nil
+		return "harness", err.Error(), nil, nil
 	}
 	exe, err := os.Executable()
 	if err != nil {
-		return "harness", err.Error(), nil
+		return "harness", err.Error(), nil, nil
 	}
 	cmd := exec.Command(exe, "C07child", "-replay", jobFile, "-out", os.DevNull, "-tmp", dir)
 	var stderr bytes.Buffer
 	cmd.Stderr = &stderr
 	cmd.Stdout = nil
 	if err := cmd.Start(); err != nil {
-		return "harness", err.Error(), nil
+		return "harness", err.Error(), nil, nil
 	}
 	done := make(chan error, 1)
 	go func() { done <- cmd.Wait() }()
@@ -110,7 +115,7 @@ func (c *Ctx) c07OptimizeChild(dir string, patch []byte, oldDir, newDir string, 
 	case <-time.After(deadline):
 		cmd.Process.Kill()
 		<-done
-		return "hang", fmt.Sprintf("no return within %s", deadline), nil
+		return "hang", fmt.Sprintf("no return within %s", deadline), nil, nil
 	}
 	rb, rerr := os.ReadFile(job.Result)
 	if err != nil || rerr != nil {
@@ -122,19 +127,19 @@ func (c *Ctx) c07OptimizeChild(dir string, patch []byte, oldDir, newDir string, 
 		if len(tail) > 300 {
 			tail = tail[:300]
 		}
-		return "panic", "optimizer process died: " + strings.TrimSpace(tail), nil
+		return "panic", "optimizer process died: " + strings.TrimSpace(tail), nil, nil
 	}
 	var res c07Result
 	if err := json.Unmarshal(rb, &res); err != nil {
-		return "harness", err.Error(), nil
+		return "harness", err.Error(), nil, nil
 	}
 	if res.Class == "ok" {
 		out, err = os.ReadFile(job.Out)
 		if err != nil {
-			return "harness", err.Error(), nil
+			return "harness", err.Error(), nil, nil
 		}
 	}
-	return res.Class, res.Msg, out
+	return res.Class, res.Msg, out, res.Mappings
 }
 
 // ---------------------------------------------------------------- pairs
@@ -293,10 +298,14 @@ func (c *Ctx) c07Run(idx int, name string, old, nw *lib.Build, rel []string, o l
 	}
 
 	// ---- analysis pass
+	// (the selection iterates a Go map: on a tie between old files none of which has the new
+	// file's path two analyses of the same patch may differ, so the mappings judged below are
+	// those of the very run that writes the optimized patch)
 	var ms []rdMapping
+	var rc rediff.Context
 	cls, msg := lib.Guard(func() error {
 		var err error
-		_, ms, err = rdAnalyze(dr.Patch, o)
+		rc, ms, err = rdAnalyze(dr.Patch, o)
 		return err
 	})
 	obs["analyze"] = cls
@@ -306,35 +315,45 @@ func (c *Ctx) c07Run(idx int, name string, old, nw *lib.Build, rel []string, o l
 	mapped := map[int64]rdMapping{}
 	risky, shapeDiv, shapeEmpty := false, false, false
 	var mdesc []string
-	for _, m := range ms {
-		mapped[m.Source] = m
-		ol, nl := orig.Target.Files[m.Target].Size, orig.Source.Files[m.Source].Size
-		if ol < 64 || nl < 64 {
-			risky = true
+	digest := func() {
+		mapped = map[int64]rdMapping{}
+		risky, shapeDiv, shapeEmpty, mdesc = false, false, false, nil
+		for _, m := range ms {
+			mapped[m.Source] = m
+			ol, nl := orig.Target.Files[m.Target].Size, orig.Source.Files[m.Source].Size
+			if ol < 64 || nl < 64 {
+				risky = true
+			}
+			if rdDivByZeroShape(ol, nl, o.Partitions) {
+				shapeDiv = true
+			}
+			if rdEmptyOldShape(ol, nl) {
+				shapeEmpty = true
+			}
+			mdesc = append(mdesc, fmt.Sprintf("%s(%d)<-%s(%d):%d", orig.Source.Files[m.Source].Path, nl, orig.Target.Files[m.Target].Path, ol, m.NumBytes))
 		}
-		if rdDivByZeroShape(ol, nl, o.Partitions) {
-			shapeDiv = true
-		}
-		if rdEmptyOldShape(ol, nl) {
-			shapeEmpty = true
-		}
-		mdesc = append(mdesc, fmt.Sprintf("%s(%d)<-%s(%d):%d", orig.Source.Files[m.Source].Path, nl, orig.Target.Files[m.Target].Path, ol, m.NumBytes))
 	}
-	obs["mappings"] = mdesc
+	digest()
 
 	// ---- optimization pass
 	var opt []byte
 	if cls == "ok" {
 		if risky {
-			cls, msg, opt = c.c07OptimizeChild(base, dr.Patch, oldDir, newDir, o, 120*time.Second)
+			var cms []rdMapping
+			cls, msg, opt, cms = c.c07OptimizeChild(base, dr.Patch, oldDir, newDir, o, 120*time.Second)
 			obs["child"] = true
+			if cms != nil || cls == "ok" {
+				ms = cms
+				digest()
+			}
 		} else {
 			cls, msg = lib.WithDeadline(180*time.Second, func() error {
 				var err error
-				opt, err = lib.Optimize(dr.Patch, oldDir, newDir, o)
+				opt, err = rdOptimizeWith(rc, oldDir, newDir)
 				return err
 			})
 		}
+		obs["mappings"] = mdesc
 		if cls == "harness" {
 			return fmt.Errorf("c07: child process plumbing: %s", msg)
 		}
@@ -403,10 +422,10 @@ func (c *Ctx) c07Run(idx int, name string, old, nw *lib.Build, rel []string, o l
 		apps := []app{{"original/fresh", dr.Patch, false}, {"optimized/fresh", opt, false}}
 		// every patcher of a bsdiff series allocates (and clears) a 32 MiB read cache, which is
 		// most of the run time: the quick tier applies in place in every second case only
-		if c.Thorough() || idx%2 == 0 || idx >= 1000 {
+		if c.Thorough() || idx%2 == 0 || (idx >= 1000 && idx < 2000) {
 			apps = append(apps, app{"optimized/in-place", opt, true})
 		}
-		if c.Thorough() || idx%4 == 0 || idx >= 1000 {
+		if c.Thorough() || idx%4 == 0 || (idx >= 1000 && idx < 2000) {
 			apps = append(apps, app{"original/in-place", dr.Patch, true})
 		}
 		for _, a := range apps {
@@ -542,7 +561,53 @@ func runC07(c *Ctx) error {
 		}
 		idx++
 	}
-	n := c.N(40, 700)
+	// ties: two or three old files contribute the same reused-bytes figure to a new file that
+	// carries the path of one of them (which must win whatever the map order) or of none
+	nt := c.N(10, 40)
+	if c.Tier == "search" { // the search after a correspondence break: a second, larger quick run
+		nt = 24
+	}
+	for i := 0; i < nt; i++ {
+		cr := r.Fork()
+		old, nw := &lib.Build{}, &lib.Build{}
+		k := cr.Range(2, 3)
+		var names []string
+		var datas [][]byte
+		for j := 0; j < k; j++ {
+			names = append(names, fmt.Sprintf("%c/f%d.bin", 'a'+byte(cr.Intn(3)), j))
+			datas = append(datas, cr.Bytes(2*lib.BS+cr.Range(1, 5000)))
+			old.Put(lib.Entry{Path: names[j], Kind: "file", Data: datas[j]})
+		}
+		var d []byte
+		order := cr.Intn(k)
+		for j := 0; j < k; j++ {
+			src := datas[(j+order)%k]
+			d = append(append(d, src[:lib.BS]...), cr.Bytes(cr.Range(1, 200))...)
+		}
+		// (the differ does not match a full block that is followed by less than a block of other
+		// data at the end of the file, so the reused blocks are kept away from the end)
+		d = append(d, cr.Bytes(lib.BS+cr.Range(1, 200))...)
+		target := names[cr.Intn(k)]
+		rel := []string{"tie-same-path:" + target}
+		if cr.Chance(1, 4) {
+			target = "elsewhere.bin"
+			rel = []string{"tie-no-same-path"}
+		}
+		nw.Put(lib.Entry{Path: target, Kind: "file", Data: d})
+		for j := 0; j < k; j++ { // the other old files stay as they are
+			if names[j] != target {
+				nw.Put(lib.Entry{Path: names[j], Kind: "file", Data: datas[j]})
+			}
+		}
+		o := lib.OptParams{Partitions: cr.Range(0, 4), Concurrency: cr.Range(-1, 2), ForceMapAll: cr.Chance(1, 4), Comp: lib.Compressions[i%2]}
+		if err := c.c07Run(2000+i, "tie", old, nw, rel, o, lib.Compressions[0]); err != nil {
+			return err
+		}
+	}
+	n := c.N(36, 300)
+	if c.Tier == "search" {
+		n = 70
+	}
 	for i := 0; i < n; i++ {
 		cr := r.Fork()
 		opts := lib.PairOpts{MaxFiles: 4, MaxSize: 3*lib.BS + 100, Links: i%5 == 0}
